@@ -460,7 +460,17 @@ def main(argv=None):
         groups.setdefault(key, []).append((h, case, f, sig))
     rjobs = []
     for key, lst in groups.items():
-        for h, case, f, sig in lst[:2]:
+        # replay a few witnesses per group, from distinct cases first (a
+        # witness that went through an uninterpreted function may not be
+        # replayable; one reproducing witness is enough)
+        seen_cases, pick = set(), []
+        for item in lst:
+            ck = json.dumps(item[1], sort_keys=True, default=str)
+            if ck not in seen_cases:
+                seen_cases.add(ck)
+                pick.append(item)
+        pick = (pick + [x for x in lst if x not in pick])[:6]
+        for h, case, f, sig in pick:
             j = Job(modname, h, case, 'replay', {'witness': f['witness']})
             j.meta = (key, f, sig)
             rjobs.append(j)
